@@ -97,6 +97,8 @@ func run(family string, line []byte, rec *recorder, opt string) {
 		runDesc(line, rec)
 	case "psi":
 		runPSI(line, rec)
+	case "alias":
+		runAlias(line, rec)
 	case "demux", "pair", "merge", "skip", "rewind", "rfault", "reader", "robust":
 		var sc streamScenario
 		if err := json.Unmarshal(line, &sc); err != nil {
